@@ -311,6 +311,10 @@ def quotient_cases(rng, quick):
                       (1 << 64) - 1, rng.getrandbits(70) | (1 << 69), rng.getrandbits(130) | (1 << 129), (rng.getrandbits(40) << 64) + rng.getrandbits(20)]:
                 out.append(Case('alg_pow', line('alg_pow', f, a, e), oracle=o_val(powmod_naive(a, e % m, f), 'a^e, a of order %d' % m),
                                 nontrivial=True, tag='alg:pow:multiword-exponent'))
+            for e in [1 << 63, (1 << 63) + 1, (1 << 64) - 1, (1 << 63) + 12345, (1 << 62) + 3, rng.getrandbits(63) | (1 << 63), (1 << 32) + 1, (1 << 31) - 1]:
+                for prof in ('debug', 'release'):
+                    out.append(Case('alg_pow_u64', line('alg_pow_u64', f, a, e), oracle=o_val(powmod_naive(a, e % m, f), 'a^e (u64 exponent), a of order %d' % m),
+                                    nontrivial=True, tag='alg:pow:u64-top-bit', profile=prof))
     return out
 
 def quotient_edges(rng):
